@@ -96,7 +96,8 @@ def finish(ctx, explanation, assumptions, level="other"):
     """print verdict lines, write evidence + violation reports, return exit code"""
     known = [k for k in load_known() if k.get("property") == ctx.prop]
     known_keys = {k["key"]: k for k in known if k.get("status") == "known"}
-    os.makedirs(os.path.join(VERIF, "evidence", "violations"), exist_ok=True)
+    evdir = os.environ.get("VERIF_EVIDENCE_DIR") or os.path.join(VERIF, "evidence")
+    os.makedirs(os.path.join(evdir, "violations"), exist_ok=True)
     new = []
     seen_known = []
     seen = set()
@@ -114,7 +115,7 @@ def finish(ctx, explanation, assumptions, level="other"):
     code = 0
     for v in new:
         h = hashlib.sha1(v["key"].encode()).hexdigest()[:12]
-        path = os.path.join(VERIF, "evidence", "violations", "%s-%s.json" % (ctx.prop, h))
+        path = os.path.join(evdir, "violations", "%s-%s.json" % (ctx.prop, h))
         with open(path, "w") as f:
             json.dump(v, f, indent=1)
         print("VIOLATION property=%s replay=%s" % (ctx.prop, path))
@@ -154,7 +155,7 @@ def finish(ctx, explanation, assumptions, level="other"):
         "violations": len(new),
     }
     ev["coverage"].update(ctx.extra)
-    with open(os.path.join(VERIF, "evidence", "%s.json" % ctx.prop), "w") as f:
+    with open(os.path.join(evdir, "%s.json" % ctx.prop), "w") as f:
         json.dump(ev, f, indent=1)
     print("%s: %d obligations, %d discharged, %d new violation(s), %d known finding(s), %d functions, %.1fs" % (
         ctx.prop, n_ob, n_ok, len(new), len(seen_known), len(ctx.functions), time.time() - ctx.t0))
